@@ -12,757 +12,872 @@ Definition show_fres (r : fres) : string :=
   end.
 Definition check (rs : list rune) : string := digest (show_fres (format_res rs)).
 Definition full (rs : list rune) : string := show_fres (format_res rs).
-Eval vm_compute in ("<<<M1857>>>" ++ check (runes_of_ascii "options {
-    // c1
-    LittleEndian = true;
+Eval vm_compute in ("<<<M1389>>>" ++ check (runes_of_ascii "options { // c1
+LittleEndian // c2a
+  // c2b
+= // c3a
+  // c3b
+true ;
     // c5
-    StringPrefixLenType = u8;// c9
-    ArrayPrefixLenType = u8;// c13
-    FixedStringPadFromLeft = true;
-    FixedStringPadChar = '0';
-    // c21
-}// c22a
-
-// c22b
-packet Logon {
-    // c25a
-    // c25b
-    repeat i8 Ref,// c29
-    @rightPad( // c31
-        '0' // c32a
-          // c32b
-        )
-    char[8] msgKind,// c38
-    repeat InOrderid72 {
-        u8 Side2,// c44
-        uint32 Qty,// c47
-        repeat InPrice27 {
-            // c50a
-            // c50b
-            repeat char[4] Acct,// c56
-            u64 sym,
-            // c59
-        },
-        zchar[4] clOrdID,
-        int16 lastPx,// c69
-        InAcct22 {
-            // c71
-            repeat char[3] OrderId,// c77a
-            // c77b
-        },
-        // c79
-    },// c81
-    int64 Px,
-}// c85
-
-packet Fill {
-    // c88a
-    // c88b
-    uint16 Qty,// c91
-    repeat char[1] Flags,
-    // c97
-    i8 Ref,// c100
-}// c101
-
-packet Logout {
-    // c104
-    @leftPad(
-            // c106
-        '0'
-            // c107
-        )
-    // c108a
-    // c108b
-    char[3] x,// c113a
-    // c113b
-    int8 f1,// c116a
-    // c116b
-    Logon,
-    // c118
-    uint16 venue,
-    // c121
-    zchar[2] Px,
-}// c127a
-
-// c127b
-packet Reject {
-    // c130
-}
-
-root packet Leg {
-    // c135a
-    // c135b
-    Fill,// c137
-    u16 msgKind,// c140
-    match msgKind as Body {
-        // c145
-        [182, 83] : Fill,
-        // c153
-        199 : Reject,
-        // c157
-        137 : Logout,
-        35 : Logon,
-        // c165
-    },// c167a
-    // c167b
-    u32 lastPx @calculatedFrom(""CRC32""),
-    // c173
-}// c174a
-// c174b")).
-Eval vm_compute in ("<<<M1966>>>" ++ check (runes_of_ascii "root packet u8x {
-    // trailing space 
-    repeat u64 Pad,
-    i64_ @calculatedFrom(""x y"") `100% of %d`,
-    @calculatedFrom(""a	b"")
-    @lengthOf(Header)
-    @lengthOf(zchar)
-    i32 A @lengthOf(falsey),
-    repeat zchar[10] f32a `
-    `,
-    repeat f64 rootA `line1
-    line2`,// packet A { u8 x, }
-    match string_ as o {
-        65535 : options1,
-        // a // b
-        // " ++ [128512]%N ++ runes_of_ascii " emoji
-        ""// no comment"" : packetx,
-        ""\" ++ [233]%N ++ runes_of_ascii """ : lengthOf,
-        65535 : BodyLength,
-        ""packet"" : a1,
-    },
-    @tag(4294967296)
-    @tag(7)
-    @rightPad(	'\x00'
-        )
-    repeat uint64 i8i8,
-    char[42] string_ `// not a comment`,
-}
-
-MetaData pack {
-    x o `two words`,
-    x As,
-    uint64 BodyLength `// not a comment`,
-    x a1 ``,
-    T int `it's`,
-}
-
-MetaData falsey {
-    Header BodyLength ``,
-}
-
-root packet trueish {
-    i16 trueish @calculatedFrom(""`tick`"") `line1
-    line2`,
-    f64 As,
-    string T @lengthOf(pack) `100% of %d`,
-    @lengthOf(matchKey)
-    repeat char[00] lengthOf `line1
-    line2`,
-    zchar[3] _x @calculatedFrom(""`tick`""),
-    // " ++ [27880; 37322]%N ++ runes_of_ascii "
-    // trailing space 
-    @tag(00)
-    //	t
-    zchar[4294967296] msg_type,
-    repeat body,
-    Logon,
-    @tag(1)
-    @calculatedFrom(""packet"")
-    zchar[3] Z9_,
-}")).
-Eval vm_compute in ("<<<M1884>>>" ++ check (runes_of_ascii "root packet o {
-    repeat zchar[65535] o,
-    repeat char[0] zchar,
-    int64 x `
-    `,// a // b
-    string msg_type,
-    // c
-    @leftPad('\x00' )
-    repeat calculatedFrom A,
-    string Header @lengthOf(a1) `crlf
-    line`,
-    repeat crc {
-        f32 Pad,
-        match charz as Logon {
-            [
-                ""1"", ""CRC32"", """ ++ [28040; 24687]%N ++ runes_of_ascii """, 00, ""1"",
-                ""{,}"", """ ++ [28040; 24687]%N ++ runes_of_ascii """, ""{,}""
-            ] : uint8x,
-            [3, ""CRC32""] : lengthOf,
-            42 : u128,
-        },
-        Z9_,
-        float64 u128 `{ , }`,
-    },
-    u16 calculatedFrom,
-    zchar[3] calculatedFrom,
-    @tag(10)
-    match charz as _x {
-        ""abc"" : zchar,
-        ""packet"" : roots,
-        255 : options1,
-        ""1"" : uint8x,
-        // 50% %s
-    },
-}
-
-MetaData len {
-    uint8x len,
-}
-
-packet options1 {
-    @tag(10)
-    i8 roots @lengthOf(lengthOf),
-    char[1] u128 `" ++ [28040; 24687; 31867; 22411]%N ++ runes_of_ascii "`,
-    a1 tag `say ""hi""`,
-    string asx `// not a comment`,
-}
-
-packet calculatedFrom {
-    int64 a1,
-    // a // b
-    //x
-}")).
-Eval vm_compute in ("<<<M1356>>>" ++ check (runes_of_ascii "options {
-    LittleEndian = false;
-    StringPrefixLenType = u16;
-    ArrayPrefixLenType = u8;
-    FixedStringPadChar = '0';
-}
-packet Leg {
-    zchar[1] Ref,
-    repeat string count,
-    repeat InMsgkind21 {
-        repeat char[2] price,
-        uint64 sym,
-        zchar[9] msgKind,
-    },
-    zchar[5] Note,
-}
-packet Ack {
-    u16 seqNo,
-    repeat char[1] Acct,
-    @leftPad(' ') char[4] msgKind,
-    repeat InTag747 {
-        Leg,
-    },
-    repeat string Tail,
-    Leg,
-}
-packet Trade {
-    u64 clOrdID,
-    repeat InLastpx24 {
-        char[10] Note,
-        char[3] Qty,
-        repeat char[2] Side2,
-        Ack,
-        repeat InX47 {
-            Ack,
-        },
-    },
-}
-root packet Heartbeat {
-    repeat u64 Acct,
-    string lastPx,
-    u8 Side2,
-    match Side2 as Body {
-        2 : Trade,
-        157 : Ack,
-        46 : Leg,
-    },
-    u32 sym @calculatedFrom(""CRC32""),
-}
-")).
-Eval vm_compute in ("<<<M1741>>>" ++ check (runes_of_ascii "
-packet  Pad
-
-{ match
-string_
-
-as
-    // c
-  // `tick` ""quote"" 'q'
-asx 
-{7 :
-
-    len
-	3
-:
-
-    lengthOf,
-    [
-    1
-
-]
-
-    : charz""{,}"" 
-: 
-string_ , ""\n"" : tag
-    , },
-@calculatedFrom(
-	""a	b"" )  
-      // packet A { u8 x, }
-  // " ++ [128512]%N ++ runes_of_ascii " emoji
-    i16
-calculatedFrom`it's`  , @tag( 
-10) repeat 
-
-    // packet A { u8 x, }
-o
-{repeat	char[]
-o`say ""hi""`
-	,	int@calculatedFrom(
-""a\\"" ) ,	Foo
-	{ 
-repeat T{f32
-	    /// triple
-      A
-
-    @lengthOf( charz
-
-)
-	,
-Logon 
-@lengthOf( // c
-      pack)`a\`
-,
-}	,
-}
-,  
-      // " ++ [128512]%N ++ runes_of_ascii " emoji
-    //
-		}
-
-,
-
-}
-options
-{
-i64_ =
-
-uint32 // trailing space 
-  ;	falsey =	""a	b""
-;  BodyLength 
-    /// triple
-  // c
-		=  '0'  ; lengthOf
-
-=
-""" ++ [28040; 24687]%N ++ runes_of_ascii """  ;
-repeatCount = 
-// @lengthOf(
-u64} ")).
-Eval vm_compute in ("<<<M19>>>" ++ check (runes_of_ascii "options {i64_ = ' ' ;As //	t
-= ""x y""
-    _x= f64 } packet asx
-    {
-    string i8i8
-    , } // 50% %s
-packet float
-    {// 50% %s
-repeat char[ 1
-    ] trueish,  body
-@lengthOf( string_ )`two words` ,@calculatedFrom(""CRC32"") i8 u
-@lengthOf( uint8x ) ,
-    // trailing space 
-    @leftPad
-    () repeat
-    uint8x `` , body tag`tab	here`
-    ,
-string
-    chars
-    `tab	here`, @tag(
-0
-) asx , } // `tick` ""quote"" 'q'
-root packet//	t
-u128//	t
-{
-} MetaData// `tick` ""quote"" 'q'
-x_y_z  { int32 u128 , len calculatedFrom	, char[ 0 ]
-    /// triple
-    _x
-`a\` , zchar[ 1
-    ]
-    x
-    , string  MetaDataX `{ , }`
-    // trailing space 
-    ,
-}
-")).
-Eval vm_compute in ("<<<M1158>>>" ++ check (runes_of_ascii "// top
-MetaData // c0a
-  // c0b
-msg_type // c1
-{ int32
-    // c3
-As // c4a
-  // c4b
-`crlf
-line` // c5a
-  // c5b
-,
-    // c6
-MetaDataX // c7a
-  // c7b
-x
-    // c8
-`a\` // c9a
+StringPrefixLenType // c6a
+  // c6b
+= u32 ; // c9a
   // c9b
-, // c10a
-  // c10b
-int8 // c11
-_x // c12a
-  // c12b
-, // c13a
-  // c13b
-char[]
-    // c14
-As
-    // c15
-`u8 x,` // c16a
+ArrayPrefixLenType = u8
+    // c12
+; } // c14a
+  // c14b
+packet // c15
+Heartbeat // c16a
   // c16b
-,
+{
     // c17
-zchar[ // c18
-3 // c19
-] // c20
-uint8x // c21a
-  // c21b
-, // c22a
-  // c22b
-As // c23a
-  // c23b
-Foo
-    // c24
-, // c25a
-  // c25b
-} // c26
-root // c27a
-  // c27b
-packet // c28a
-  // c28b
-repeatCount // c29a
-  // c29b
-{ // c30
-} // c31
-")).
-Eval vm_compute in ("<<<M1699>>>" ++ check (runes_of_ascii "options
-	{
-string_ = 
-float64 
-;	} root
-    packet BodyLength
-
-{ Header	,
-	i16
-	Foo,lengthOf
-
-    @calculatedFrom(
-""`tick`""  )//
-`// not a comment`	,
-	@lengthOf(	charz) // " ++ [128512]%N ++ runes_of_ascii " emoji
-	repeat
-	u32  a1
-	,calculatedFrom
-
-{
-f64
-
-    chars 
-@lengthOf( 
-a1	)
-
-    `u8 x,`	,}
-	,
-
-    repeat
-
-    i8	_x	`
-`	,  }
-options 
-{ }
-MetaData 
-i8i8  {	// trailing space 
-    	MetaDataX
-    A ,
-
 string
-
-    asx ,
-    Packet Pad
-	`say ""hi""` ,
-u128 stringy ,	i64 _x  // " ++ [27880; 37322]%N ++ runes_of_ascii "
-	,
-	}
-
-    packet
-    x
-
-{
-}
-")).
-Eval vm_compute in ("<<<M322>>>" ++ check (runes_of_ascii "// `tick` ""quote"" 'q'
-root packet uint8x {@leftPad	() matchKey@lengthOf(repeatCount ),
-    // @lengthOf(
-    @tag( 10 ) zchar[ 65535 ] u
-    , char[]
-x_y_z ,char[] /// triple
-tag @calculatedFrom( ""a\""b"") ,
-@tag(	65535)
-@calculatedFrom(
-""a	b"" // 50% %s
-)
-    @calculatedFrom( ""`tick`""
-) body @lengthOf(
-    falsey ) //	t
-``, @calculatedFrom(	""" ++ [28040; 24687]%N ++ runes_of_ascii """
-    // `tick` ""quote"" 'q'
-    )  @calculatedFrom( ""a\""b"")
-Pad , u16
-matchKey
-    /// triple
-    , }")).
-Eval vm_compute in ("<<<M297>>>" ++ check (runes_of_ascii "packet uint8x{ @calculatedFrom(""" ++ [233]%N ++ runes_of_ascii "t" ++ [233]%N ++ runes_of_ascii """)int16 x_y_z
-// trailing space 
-//x
-,repeatCount , Logon  { repeat // c
-i8 Packet //
-`// not a comment`
-, } , @rightPad (  '0'// trailing space 
-)string msg_type
-, @calculatedFrom( ""`tick`"")
+    // c18
+msgKind
+    // c19
+, // c20a
+  // c20b
+} // c21a
+  // c21b
+packet // c22
+Logon
+    // c23
+{ repeat
+    // c25
+Heartbeat // c26a
+  // c26b
+, // c27a
+  // c27b
+repeat // c28
+string // c29
+Px // c30a
+  // c30b
+, // c31
+uint8 // c32a
+  // c32b
+Tail
+    // c33
+, char[]
+    // c35
+f1 // c36a
+  // c36b
+,
+    // c37
+} packet
+    // c39
+Cancel // c40
+{ // c41a
+  // c41b
+zchar[ // c42a
+  // c42b
+4
+    // c43
+] OrderId // c45a
+  // c45b
+,
+    // c46
+Logon
+    // c47
+,
+    // c48
+repeat InMsgkind98
+    // c50
+{ // c51
+repeat // c52a
+  // c52b
+u8 // c53a
+  // c53b
+tag7 , // c55
 repeat
-Z9_// " ++ [128512]%N ++ runes_of_ascii " emoji
-repeatCount
-//
-// trailing space 
-, o `doc`
-, i64_ Pad , match
-repeatCount as
-roots {[
-// packet A { u8 x, }
-// " ++ [27880; 37322]%N ++ runes_of_ascii "
-42,007 ] :
-    // packet A { u8 x, }
-    i8i8 ,
-}, }
-")).
-Eval vm_compute in ("<<<M84>>>" ++ check (runes_of_ascii "
-options
-{T = """ ++ [28040; 24687]%N ++ runes_of_ascii """ ; string_
-// @lengthOf(
-// 50% %s
-=
-false; f32a
-    = 0123456789 ; Z9_ = 255} MetaData
-chars // " ++ [27880; 37322]%N ++ runes_of_ascii "
-{ float32	charz
-    `{ , }` ,// @lengthOf(
-zchar[
-    1
-] u8x`100% of %d`
-, uint16 asx `two words`
+    // c56
+InFlags69 // c57
+{ // c58a
+  // c58b
+char[]
+    // c59
+Note // c60
+, // c61a
+  // c61b
+char[] lastPx // c63a
+  // c63b
+, // c64a
+  // c64b
+char[ 11 ] // c67
+Ref ,
+    // c69
+Logon
+    // c70
+, // c71
+} // c72
+, // c73a
+  // c73b
+repeat // c74
+Heartbeat ,
+    // c76
+} // c77
+, // c78a
+  // c78b
+zchar[ // c79
+7
+    // c80
+] // c81a
+  // c81b
+Px
+    // c82
+, // c83
+u32 seqNo ,
+    // c86
+} // c87
+root
+    // c88
+packet Reject // c90
+{ i16 // c92a
+  // c92b
+tag7 // c93
 ,
-    char[ 4294967296 ]	Header
-    , i32 Logon , char[
-0123456789 ]// c
-crc, } packet /// triple
-options1 { falsey	`crlf
-line`
+    // c94
+char[
+    // c95
+3 // c96a
+  // c96b
+] // c97
+Qty // c98a
+  // c98b
+, // c99a
+  // c99b
+InRef42 { u8 pad0 // c103a
+  // c103b
 ,
-// `tick` ""quote"" 'q'
-/// triple
-}")).
-Eval vm_compute in ("<<<M1159>>>" ++ check (runes_of_ascii "// top
-MetaData // c0
-x // c1
-{ // c2
-f32a // c3
-Pad // c4
-`` // c5
-, // c6
-} // c7
-packet // c8
-leftPad // c9
-{ // c10
-repeat // c11
-int64 // c12
-crc // c13
-, // c14
-BodyLength // c15
-{ // c16
-uint8 // c17
-pack // c18
-`say ""hi""` // c19
-, // c20
-lengthOf // c21
-@lengthOf( // c22
-asx // c23
-) // c24
-`" ++ [28040; 24687; 31867; 22411]%N ++ runes_of_ascii "` // c25
-, // c26
-} // c27
-, // c28
-} // c29
-")).
-Eval vm_compute in ("<<<M1863>>>" ++ check (runes_of_ascii "packet A
-	{
-	u8  a, }
-packet B 
+    // c104
+} // c105
+,
+    // c106
+uint32 // c107a
+  // c107b
+f1 // c108a
+  // c108b
+,
+    // c109
+zchar[ // c110
+7 ] OrderId , // c114a
+  // c114b
+zchar[ // c115a
+  // c115b
+8 // c116
+] x ,
+    // c119
+} ")).
+Eval vm_compute in ("<<<M1551>>>" ++ check (runes_of_ascii "options
 {
+	StringPrefixLenType
+    =u16
+;
+	ArrayPrefixLenType
+=
 
 u16
-    b
-,
+	; }
+	packet
+SampleBinary
 
-}  packet C
+    { uint16
 
-{
+MsgType  `" ++ [28040; 24687; 31867; 22411]%N ++ runes_of_ascii "`  ,
 
-u32
+u16
+BodyLenght @lengthOf(
 
-c 
-, 
-}
-root 
-packet
-M 
-{
-    u16
-
-Kc
-	, u16
-    Kb 
-,
-	u16	Ka, match
-
-    Kc
-
-    as
-    X  {
-	9:
-A
-,
-
-    10:
-B  ,
-	} ,
-match Kb
-
-    as Y	{ 
-2 :C
-
-,
+    Body )`" ++ [28040; 24687; 20307; 38271; 24230]%N ++ runes_of_ascii "`, match	MsgType as
+Body { 
 1
-:	A  , }	,
-    match
-Ka as 
-Z
-	{  1:
-    B
+:
 
-, },  A
+Logon
 
+    ,
+
+2
+: 
+Logout
+,3 :
+
+    Heartbeat
+	, 
+4
+: RiskControlRequest
+
+, 5  :
+	RiskControlResponse ,
+}  ,
+@calculatedFrom(  ""CRC32"" )  u32 Ckecksum
+
+`" ++ [26657; 39564; 21644]%N ++ runes_of_ascii "`
+    ,}
+packet  Logon {@leftPad
+
+( '0'  )  char[
+10
+]
+
+    UserName `" ++ [29992; 25143; 21517]%N ++ runes_of_ascii "` ,
+    string
+	Password `" ++ [23494; 30721]%N ++ runes_of_ascii "`
+    ,
+
+uint64 ClientId `" ++ [23458; 25143; 31471]%N ++ runes_of_ascii "ID` ,	u16 HeartbeatInterval `" ++ [24515; 36339; 38388; 38548]%N ++ runes_of_ascii "`
+, } packet Logout {	@rightPad
+    ('0'
+	)
+
+char[
+
+    10 ]
+	UserName
+
+    `" ++ [29992; 25143; 21517]%N ++ runes_of_ascii "`,uint64
+ClientId 
+`" ++ [23458; 25143; 31471]%N ++ runes_of_ascii "ID`, } packet	Heartbeat{
+    }
+packet
+    RiskControlRequest
+
+    { 
+string
+
+UniqueOrderId  `" ++ [21807; 19968; 35746; 21333; 21495]%N ++ runes_of_ascii "`
+    ,
+char[
+
+    16
+
+]  ClOrdID
+	`" ++ [23458; 25143; 35746; 21333; 21495]%N ++ runes_of_ascii "`	,
+char[
+3 ]MarketID `" ++ [24066; 22330]%N ++ runes_of_ascii "id`
+
+, char[12 ]SecurityID
+
+`" ++ [35777; 21048; 20195; 30721]%N ++ runes_of_ascii "` ,char Side
+    `" ++ [20080; 21334; 26041; 21521]%N ++ runes_of_ascii "`
+	,	char
+    OrderType `" ++ [35746; 21333; 31867; 22411]%N ++ runes_of_ascii "`
+	,
+    u64
+Price  `" ++ [20215; 26684]%N ++ runes_of_ascii "`  ,
+u32
+	Qty
+`" ++ [25968; 37327]%N ++ runes_of_ascii "`
+	, repeat
+string
+    ExtraInfo
+	`" ++ [38468; 21152; 20449; 24687]%N ++ runes_of_ascii "` , 
+repeat
+    SubOrder
+
+{	char[ 16] ClOrdID `" ++ [23376; 35746; 21333; 21495]%N ++ runes_of_ascii "`,
+u64	Price
+
+    `" ++ [23376; 35746; 21333; 20215; 26684]%N ++ runes_of_ascii "` ,u32
+Qty `" ++ [23376; 35746; 21333; 25968; 37327]%N ++ runes_of_ascii "`,
+
+    }
 ,
+	}  packet RiskControlResponse
 
-    B
+    { string UniqueOrderId`" ++ [21807; 19968; 35746; 21333; 21495]%N ++ runes_of_ascii "`  ,	i32 Status `" ++ [29366; 24577]%N ++ runes_of_ascii "` ,
+    string Msg`" ++ [32467; 26524; 20449; 24687]%N ++ runes_of_ascii "`
 
-    ,	C, } ")).
-Eval vm_compute in ("<<<M1198>>>" ++ check (runes_of_ascii "// top
+, repeat Detail
+,
+}
+packet Detail {
+    string RuleName`" ++ [35268; 21017; 21517; 31216]%N ++ runes_of_ascii "`	,u16 Code  `" ++ [21407; 22240; 20195; 30721]%N ++ runes_of_ascii "`
+    ,}
+")).
+Eval vm_compute in ("<<<M83>>>" ++ check (runes_of_ascii "packet  A{
+@rightPad (
+' '
+)
+    // trailing space 
+    zchar[ 42
+    // 50% %s
+    ]MetaDataX , repeat
+int32 // 50% %s
+Logon ,leftPad string_// packet A { u8 x, }
+, @calculatedFrom(	""packet""
+    )
+char[ 3  ]
+    // 50% %s
+    Logon `{ , }` ,	match
+    crc as _x{65535:float, 00
+:
+    BodyLength [
+""" ++ [128512]%N ++ runes_of_ascii """
+    , // `tick` ""quote"" 'q'
+""a\\"" ,// packet A { u8 x, }
+""a\""b"" ,
+""// no comment"" ,  ""\n""
+    , 255	]
+    :
+    // c
+    MetaDataX ,0 : u8x}
+    , }	options { zchar = false; i64_
+= zchar[ 7
+    ] ; BodyLength =
+    ""1""	i8i8	= // @lengthOf(
+true
+; _x // packet A { u8 x, }
+= ""// no comment""
+; } packet //	t
+crc{
+match	As
+as zchar {0 : leftPad
+,
+[0 , 255 , """ ++ [233]%N ++ runes_of_ascii "t" ++ [233]%N ++ runes_of_ascii """, ""x y""
+    ,
+    ""`tick`"" ,  4294967296 , """ ++ [233]%N ++ runes_of_ascii "t" ++ [233]%N ++ runes_of_ascii """ //	t
+, """" ] :
+stringy [ 0 ,	""{,}"" , ""packet""
+    , 3
+,
+    65535
+,42 ,	""packet"",0 ]:A 00
+    : x }
+,  @tag(	42 )
+    match
+    chars as x {
+[ ""packet"" ,65535 ]
+://x
+T
+    ,
+""" ++ [28040; 24687]%N ++ runes_of_ascii """ : float ,
+""" ++ [28040; 24687]%N ++ runes_of_ascii """
+:packetx 0:
+    /// triple
+    trueish ,""" ++ [128512]%N ++ runes_of_ascii """ :
+pack,} , // packet A { u8 x, }
+@calculatedFrom(""abc"" ) stringy
+pack , }
+    packet msg_type
+{ }
+")).
+Eval vm_compute in ("<<<M158>>>" ++ check (runes_of_ascii "packet
+MetaDataX
+    { A
+    // @lengthOf(
+    @lengthOf( leftPad )
+`// not a comment`, @leftPad( '0' ) zchar[255 ] metadata `tab	here` ,  match Packet
+as x_y_z
+{
+0123456789 :	o ,	007 :
+// 50% %s
+// " ++ [128512]%N ++ runes_of_ascii " emoji
+float, 0: pack,
+42:
+i8i8
+,
+[  3	]
+/// triple
+//x
+: BodyLength , },@lengthOf(
+    // " ++ [128512]%N ++ runes_of_ascii " emoji
+    repeatCount ) match stringy as
+rootA
+{ 00
+// " ++ [128512]%N ++ runes_of_ascii " emoji
+//	t
+: /// triple
+x, 10:  Z9_ /// triple
+,4294967296 : crc , 00	:
+    _x
+, } ,
+repeat x{	uint32	int , repeat string_ metadata, }
+    // " ++ [128512]%N ++ runes_of_ascii " emoji
+    ,@leftPad( ' ' )
+    repeat zchar[ 007]	falsey `tab	here` ,
+    // trailing space 
+    @leftPad	( )	rootA @lengthOf( T)
+, }
+root packet f32a//x
+{ As @calculatedFrom( ""abc""
+) `// not a comment`, }  packet Z9_{ match // " ++ [128512]%N ++ runes_of_ascii " emoji
+falsey as  string_ {""a	b"":  trueish,
+[ 255 , 007
+    ]
+    : falsey
+    """ ++ [28040; 24687]%N ++ runes_of_ascii """ : Header , 00 : /// triple
+string_
+    00
+:	metadata } ,
+    } root
+    packet string_ { repeat int8 T , } 	 ")).
+Eval vm_compute in ("<<<M163>>>" ++ check (runes_of_ascii "packet i8i8 {
+// trailing space 
+// " ++ [27880; 37322]%N ++ runes_of_ascii "
+MetaDataX @lengthOf( chars) `" ++ [233]%N ++ runes_of_ascii "` , // 50% %s
+char[]	u128@lengthOf( u8x ) , @lengthOf(
+T )
+float64 repeatCount ,
+    @tag( 00 )
+    MetaDataX ,
+// a // b
+// trailing space 
+uint64 chars
+    `tab	here` , string_/// triple
+@lengthOf( As
+    )	`` //
+, zchar[
+00 ] asx@lengthOf( /// triple
+metadata
+)
+    `line1
+line2` ,
+@lengthOf(	charz )
+charz
+f32a
+`" ++ [28040; 24687; 31867; 22411]%N ++ runes_of_ascii "` , @rightPad(	'\x00'
+)repeat BodyLength tag , } packet
+repeatCount {
+crc stringy ,}options
+{ zchar = char[]/// triple
+;
+    options1 = false repeatCount
+=""a	b"" body = ""`tick`""}
+// a // b
+//x
+MetaData MetaDataX
+{ Pad repeatCount `u8 x,`
+,
+char[ 42 ] f32a ``
+    , _x	Z9_  ,
+} packet
+Logon { @tag( 007 ) o {
+char
+Packet
+    @lengthOf( repeatCount )
+    //
+    ,} , } // a // b")).
+Eval vm_compute in ("<<<M47>>>" ++ check (runes_of_ascii "packet
+matchKey// a // b
+{@lengthOf(  chars ) options1@lengthOf( len	), match //x
+Packet as Z9_{ [ """ ++ [28040; 24687]%N ++ runes_of_ascii """ , ""1"" , 42
+    ] : u128 // @lengthOf(
+, ""1"" :  roots // c
+,
+00
+: packetx 007 :  repeatCount , 0 :u8x
+    ,
+    //	t
+    } , match leftPad // packet A { u8 x, }
+as msg_type { """"
+// @lengthOf(
+//x
+: x,
+    ""`tick`"" : u128
+    ,42
+: u128
+,
+[7 ,	0123456789 , ""\" ++ [233]%N ++ runes_of_ascii """ , 7  ]:
+lengthOf ,""{,}"" :
+T ,  ""packet""
+: Logon} /// triple
+,
+    //
+    char
+    Packet
+, repeat trueish uint8x ,
+repeat zchar[  0 ] pack
+    ,  string Pad,uint16	i8i8
+`say ""hi""` , }
+    packet
+pack{ string
+tag
+    @calculatedFrom(
+""// no comment"" // c
+) , } MetaData rootA
+{string BodyLength, }
+")).
+Eval vm_compute in ("<<<M1746>>>" ++ check (runes_of_ascii "
+options{
+stringy
+	= 00  //
+    f32a	=  // " ++ [128512]%N ++ runes_of_ascii " emoji
+  uint16; u8x 
+= int64
+;	// " ++ [27880; 37322]%N ++ runes_of_ascii "
+	  } 
+root
+    packet
+
+Header  {
+body
+
+{// @lengthOf(
+string
+repeatCount
+@calculatedFrom(
+
+""x y""  ) `// not a comment`  ,match roots
+as 
+uint8x
+    {	""a\\"" : T
+,
+}
+	,
+
+    repeat	i64_ {
+trueish @lengthOf(x_y_z)`" ++ [28040; 24687; 31867; 22411]%N ++ runes_of_ascii "`,
+    } , }
+,  int64 Packet ,
+
+    match
+pack  as
+	zchar
+
+    {""it's""
+
+:
+    Header,
+
+[ ""a\\""
+,
+3
+    ]
+: 
+calculatedFrom ,
+
+00 :
+
+options1	// packet A { u8 x, }
+		, 
+0 
+	    // c
+:
+
+u8x
+
+[
+
+65535  ,0123456789]
+: float 
+255:uint8x,}  , } MetaData
+	u
+{	// a // b
+  	}
+")).
+Eval vm_compute in ("<<<M1834>>>" ++ check (runes_of_ascii "packet rootA {
+    @calculatedFrom(""{,}"")
+    @calculatedFrom(""x y"")
+    char[0] lengthOf,
+    @tag(3)
+    //	t
+    trueish,
+    charz `" ++ [28040; 24687; 31867; 22411]%N ++ runes_of_ascii "`,
+    match u8x as roots {
+        ""x y"" : i64_,
+        ""a\\"" : As,
+        ""CRC32"" : calculatedFrom,
+        ""1"" : msg_type,
+        [""" ++ [233]%N ++ runes_of_ascii "t" ++ [233]%N ++ runes_of_ascii """, 007] : Foo,
+    },
+    u32 lengthOf,
+    @lengthOf(options1)
+    x_y_z Logon `100% of %d`,
+    @tag(42)
+    // packet A { u8 x, }
+    A {
+        f32a `u8 x,`,
+    },//x
+    @rightPad(' ')
+    char[65535] f32a `tab	here`,
+    // c
+    /// triple
+}")).
+Eval vm_compute in ("<<<M1311>>>" ++ check (runes_of_ascii "packet A // c1
+{ // c2
+u8 a // c4a
+  // c4b
+,
+    // c5
+}
+    // c6
+packet
+    // c7
+B // c8
+{
+    // c9
+u16 // c10
+b , // c12
+}
+    // c13
+root // c14a
+  // c14b
+packet P {
+    // c17
+u8 K ,
+    // c20
+match // c21
+K // c22
+as
+    // c23
+M // c24a
+  // c24b
+{ [
+    // c26
+1 // c27a
+  // c27b
+, // c28
+2 // c29a
+  // c29b
+]
+    // c30
+:
+    // c31
+A // c32
+, // c33
+3 // c34
+:
+    // c35
+B // c36a
+  // c36b
+, // c37
+7 // c38
+: // c39a
+  // c39b
+A // c40
+,
+    // c41
+} // c42
+, // c43
+} ")).
+Eval vm_compute in ("<<<M1308>>>" ++ check (runes_of_ascii "// top
+packet // c0
+A { // c2a
+  // c2b
+u8 a // c4a
+  // c4b
+, // c5a
+  // c5b
+}
+    // c6
+packet // c7a
+  // c7b
+B { // c9a
+  // c9b
+u16
+    // c10
+b // c11a
+  // c11b
+, // c12a
+  // c12b
+} root
+    // c14
+packet // c15
+P
+    // c16
+{ // c17a
+  // c17b
+u8 K // c19a
+  // c19b
+, // c20a
+  // c20b
+match // c21
+K as M // c24a
+  // c24b
+{
+    // c25
+1 // c26
+: // c27
+A , 1 // c30
+: B // c32a
+  // c32b
+,
+    // c33
+} , // c35a
+  // c35b
+} // c36
+")).
+Eval vm_compute in ("<<<M1379>>>" ++ check (runes_of_ascii "options {
+    ArrayPrefixLenType = u64;
+    FixedStringPadFromLeft = true;
+    FixedStringPadChar = '0';
+}
+packet Order {
+}
+root packet Leg {
+    char[] Ref,
+    repeat Order,
+    f32 Acct,
+    @leftPad('0') char[10] venue,
+    @rightPad('0') char[3] seqNo,
+    repeat u64 Px,
+    u8 Flags,
+    u32 lastPx @lengthOf(Body),
+    match Flags as Body {
+        185 : Order,
+    },
+    u16 sym @calculatedFrom(""CR\
+C32""),
+}
+")).
+Eval vm_compute in ("<<<M1838>>>" ++ check (runes_of_ascii "// top
+options {
+    // c1a
+    // c1b
+    FixedStringPadChar = '0';// c5a
+    // c5b
+}
+
+packet Q {
+    // c9a
+    // c9b
+    zchar[4] z,// c14
+    @rightPad('\x00')
+    char[3] n,// c23a
+    // c23b
+    char[5] d,// c28a
+    // c28b
+}// c29a
+
+// c29b
+root packet R {
+    // c33a
+    // c33b
+    Q,
+    // c35
+    zchar[8] top,// c40a
+    // c40b
+    repeat zchar[2] zs,// c46
+}// c47")).
+Eval vm_compute in ("<<<M293>>>" ++ check (runes_of_ascii "MetaData o { float32 Z9_`two words` ,char[0123456789 ] As , char[
+4294967296 ]
+u8x`100% of %d`	, /// triple
+}
+packet u8x { @rightPad // packet A { u8 x, }
+( ' '	) match len as packetx
+{
+    [ ""a	b"",//	t
+10 , 42, 007 ,  4294967296	,
+    ""packet"" , ""it's""
+]
+: x_y_z  0	:  o , },
+}MetaData calculatedFrom { char[
+    // @lengthOf(
+    3
+]
+len ,
+    }")).
+Eval vm_compute in ("<<<M1200>>>" ++ check (runes_of_ascii "// top
 options // c0
-{ // c1
-} // c2
+{ // c1a
+  // c1b
+}
+    // c2
 options // c3
-{ // c4
-MetaDataX // c5
-= // c6
-char // c7
-; // c8
-} // c9
+{
+    // c4
+MetaDataX
+    // c5
+= // c6a
+  // c6b
+char // c7a
+  // c7b
+; } // c9
 MetaData // c10
 Pad // c11
 { // c12
-i8 // c13
-metadata // c14
+i8 metadata // c14a
+  // c14b
 , // c15
-string // c16
-stringy // c17
-, // c18
-int8 // c19
+string // c16a
+  // c16b
+stringy , int8 // c19a
+  // c19b
 As // c20
-`{ , }` // c21
-, // c22
-} // c23
+`{ , }`
+    // c21
+, } ")).
+Eval vm_compute in ("<<<M1706>>>" ++ check (runes_of_ascii "
+
+  // c
+    options
+
+{
+    As= 
+'0'// 50% %s
+;
+    float	= 
+
+    //
+char[] u	=
+""a\""b"";
+	msg_type	=
+    u32 ; falsey=7
+    ; /// triple
+  }
+
+    // a // b
+	packet
+
+x_y_z
+    {
+
+    T  // " ++ [27880; 37322]%N ++ runes_of_ascii "
+  ``
+
+,	}
+packet	pack
+{
+
+@leftPad( ) rootA
+    float
+
+,
+}  // packet A { u8 x, }
+ 
 ")).
-Eval vm_compute in ("<<<M402>>>" ++ check (runes_of_ascii "packet
-    asx { @calculatedFrom( @calculatedFrom(
-""""  ) @tag( 255 )repeat
-// packet A { u8 x, }
-// trailing space 
-int16 u8x
-,
-@tag(
-    //
-    007 )
-    @tag( 0
-    /// triple
-    ) @tag( 1) u
-    @lengthOf( T ),
-// `tick` ""quote"" 'q'
-//x
-} // " ++ [128512]%N ++ runes_of_ascii " emoji")).
-Eval vm_compute in ("<<<M439>>>" ++ check (runes_of_ascii "packet
-    asx { @calculatedFrom(
-""""  ) @tag( 255 )repeat
-// packet A { u8 x, }
-// trailing space 
-`tab	here` u8x
-,
-@tag(
-    //
-    007 )
-    @tag( 0
-    /// triple
-    ) @tag( 1) u
-    @lengthOf( T ),
-// `tick` ""quote"" 'q'
-//x
-} // " ++ [128512]%N ++ runes_of_ascii " emoji")).
-Eval vm_compute in ("<<<M530>>>" ++ check (runes_of_ascii "packet
-    ~ asx { @calculatedFrom(
-""""  ) @tag( 255 )repeat
-// packet A { u8 x, }
-// trailing space 
-int16 u8x
-,
-@tag(
-    //
-    007 )
-    @tag( 0
-    /// triple
-    ) @tag( 1) u
-    @lengthOf( T ),
-// `tick` ""quote"" 'q'
-//x
-} // " ++ [128512]%N ++ runes_of_ascii " emoji")).
-Eval vm_compute in ("<<<M449>>>" ++ check (runes_of_ascii "packet
-    asx { @calculatedFrom(
-""""  ) @tag( 255 )repeat
-// packet A { u8 x, }
-// trailing space 
-int16 u8x
-]
-@tag(
-    //
-    007 )
-    @tag( 0
-    /// triple
-    ) @tag( 1) u
-    @lengthOf( T ),
-// `tick` ""quote"" 'q'
-//x
-} // " ++ [128512]%N ++ runes_of_ascii " emoji")).
-Eval vm_compute in ("<<<M491>>>" ++ check (runes_of_ascii "packet
+Eval vm_compute in ("<<<M1331>>>" ++ check (runes_of_ascii "packet P1 {
+    u8 a,
+}
+packet P2 {
+    P1,
+}
+packet P3 {
+    P2,
+    P1,
+}
+packet P4 {
+    repeat P3,
+    P2,
+}
+root packet P5 {
+    P4,
+    P3,
+    P1,
+    u8 K,
+    match K as Body {
+        4 : P4,
+        3 : P3,
+        2 : P2,
+        1 : P1,
+    },
+}
+")).
+Eval vm_compute in ("<<<M53>>>" ++ check (runes_of_ascii "  root packet _x{ uint32 //	t
+trueish @calculatedFrom(""1"" ) `tab	here`
+    , } packet Header
+    {repeat
+    u64 stringy `u8 x,` ,float32
+    msg_type
+, repeat
+x_y_z crc `two words`
+, zchar[ // c
+007 ] Packet ,
+    string asx `say ""hi""`
+,}
+")).
+Eval vm_compute in ("<<<M493>>>" ++ check (runes_of_ascii "packet
     asx { @calculatedFrom(
 """"  ) @tag( 255 )repeat
 // packet A { u8 x, }
@@ -774,265 +889,363 @@ int16 u8x
     007 )
     @tag( 0
     /// triple
-    ) @tag( 1 u
+    ) @tag( 1 u )
     @lengthOf( T ),
 // `tick` ""quote"" 'q'
 //x
 } // " ++ [128512]%N ++ runes_of_ascii " emoji")).
-Eval vm_compute in ("<<<M1302>>>" ++ check (runes_of_ascii "// top
+Eval vm_compute in ("<<<M473>>>" ++ check (runes_of_ascii "packet
+    asx { @calculatedFrom(
+""""  ) @tag( 255 )repeat
+// packet A { u8 x, }
+// trailing space 
+int16 u8x
+,
+@tag(
+    //
+    007 )
+    @tag( )
+    /// triple
+    0 @tag( 1) u
+    @lengthOf( T ),
+// `tick` ""quote"" 'q'
+//x
+} // " ++ [128512]%N ++ runes_of_ascii " emoji")).
+Eval vm_compute in ("<<<M544>>>" ++ check (runes_of_ascii "packet
+    x" ++ [178]%N ++ runes_of_ascii " { @calculatedFrom(
+""""  ) @tag( 255 )repeat
+// packet A { u8 x, }
+// trailing space 
+int16 u8x
+,
+@tag(
+    //
+    007 )
+    @tag( 0
+    /// triple
+    ) @tag( 1) u
+    @lengthOf( T ),
+// `tick` ""quote"" 'q'
+//x
+} // " ++ [128512]%N ++ runes_of_ascii " emoji")).
+Eval vm_compute in ("<<<M401>>>" ++ check (runes_of_ascii "packet
+    asx { 
+""""  ) @tag( 255 )repeat
+// packet A { u8 x, }
+// trailing space 
+int16 u8x
+,
+@tag(
+    //
+    007 )
+    @tag( 0
+    /// triple
+    ) @tag( 1) u
+    @lengthOf( T ),
+// `tick` ""quote"" 'q'
+//x
+} // " ++ [128512]%N ++ runes_of_ascii " emoji")).
+Eval vm_compute in ("<<<M520>>>" ++ check (runes_of_ascii "packet
+    asx { @calculatedFrom(
+""""  ) @tag( 255 )repeat
+// packet A { u8 x, }
+// trailing space 
+int16 u8x
+,
+@tag(
+    //
+    007 )
+    @tag( 0
+    /// triple
+    ) @tag( 1) u
+    @lengthOf( T )")).
+Eval vm_compute in ("<<<M1589>>>" ++ check (runes_of_ascii "packet
+	_x
+
+{ @calculatedFrom( ""packet"")
+    char[]
+	T  `" ++ [28040; 24687; 31867; 22411]%N ++ runes_of_ascii "`
+,@calculatedFrom(
+""" ++ [28040; 24687]%N ++ runes_of_ascii """	) f64
+
+    pack `" ++ [233]%N ++ runes_of_ascii "`
+
+    ,
+@calculatedFrom(
+
+""a	b"" 
+)
+	repeat  crc
+
+`100% of %d`	//
+
+,
+}
+
+")).
+Eval vm_compute in ("<<<M622>>>" ++ check (runes_of_ascii "MetaData u
+    { } MetaData o
+{ float uint8x
+`100% of %d` ,repeatCount u8x, string_ leftPad leftPad
+, i32
+    Foo , int64 x `two words` , calculatedFrom
+stringy `a\` ,
+}
+")).
+Eval vm_compute in ("<<<M552>>>" ++ check (runes_of_ascii "MetaData u u
+    { } MetaData o
+{ float uint8x
+`100% of %d` ,repeatCount u8x, string_ leftPad
+, i32
+    Foo , int64 x `two words` , calculatedFrom
+stringy `a\` ,
+}
+")).
+Eval vm_compute in ("<<<M1292>>>" ++ check (runes_of_ascii "// top
 root // c0
 packet // c1
-P // c2a
-  // c2b
-{ // c3a
-  // c3b
-u8 // c4a
-  // c4b
-s_u8 // c5a
-  // c5b
-, repeat
+P { // c3
+u16 a , u32
     // c7
-u8 // c8a
+Sum // c8a
   // c8b
-r_u8 // c9a
-  // c9b
-,
+@calculatedFrom( ""CRC32""
     // c10
-u16
+)
     // c11
-b_len // c12
-, // c13a
-  // c13b
-} ")).
-Eval vm_compute in ("<<<M148>>>" ++ check (runes_of_ascii "packet zchar
+, // c12a
+  // c12b
+}
+    // c13
+")).
+Eval vm_compute in ("<<<M663>>>" ++ check (runes_of_ascii "MetaData u
+    { } MetaData o
+{ float uint8x
+`100% of %d` ,repeatCount u8x, string_ leftPad
+, i32
+    Foo , int64 x `two words` calculatedFrom ,
+stringy `a\` ,
+}
+")).
+Eval vm_compute in ("<<<M636>>>" ++ check (runes_of_ascii "MetaData u
+    { } MetaData o
+{ float uint8x
+`100% of %d` ,repeatCount u8x, string_ leftPad
+, i32
+     , int64 x `two words` , calculatedFrom
+stringy `a\` ,
+}
+")).
+Eval vm_compute in ("<<<M1632>>>" ++ check (runes_of_ascii "  root  packet 	 // " ++ [27880; 37322]%N ++ runes_of_ascii "
+    matchKey	{ Z9_@calculatedFrom(
+    """"
+)
+	, }  MetaData
+	pack {
+u32
+	leftPad 
+,
+
+x
+    zchar  ,
+    uint32
+i8i8  ,
+u16 zchar ,	} ")).
+Eval vm_compute in ("<<<M1757>>>" ++ check (runes_of_ascii "packet
+A
     {
-@lengthOf(
-charz
-    ) zchar @lengthOf(Header ) `
-`
-    , u8 calculatedFrom ,	@calculatedFrom(  ""x y""	) u128 @calculatedFrom( ""it's""  )
-    ,  }options {float=	007
-    uint8x =
-""`tick`"" ;  }
-")).
-Eval vm_compute in ("<<<M229>>>" ++ check (runes_of_ascii "options {
-    }packet u128 // 50% %s
-{@tag(
-// `tick` ""quote"" 'q'
-// " ++ [27880; 37322]%N ++ runes_of_ascii "
-255 ) @tag( // `tick` ""quote"" 'q'
-0
-    )  Packet , } packet u8x { o, }
-packet  As { repeat
-    msg_type Header , }
-")).
-Eval vm_compute in ("<<<M657>>>" ++ check (runes_of_ascii "MetaData u
-    { } MetaData o
-{ float uint8x
-`100% of %d` ,repeatCount u8x, string_ leftPad
-, i32
-    Foo , int64 x `two words` `two words` , calculatedFrom
-stringy `a\` ,
-}
-")).
-Eval vm_compute in ("<<<M637>>>" ++ check (runes_of_ascii "MetaData u
-    { } MetaData o
-{ float uint8x
-`100% of %d` ,repeatCount u8x, string_ leftPad
-, i32
-    Foo Foo , int64 x `two words` , calculatedFrom
-stringy `a\` ,
-}
-")).
-Eval vm_compute in ("<<<M694>>>" ++ check (runes_of_ascii "MetaData u
-    { } MetaData o
-{ float uint8x
-`100% of %d` ' ,repeatCount u8x, string_ leftPad
-, i32
-    Foo , int64 x `two words` , calculatedFrom
-stringy `a\` ,
-}
-")).
-Eval vm_compute in ("<<<M603>>>" ++ check (runes_of_ascii "MetaData u
-    { } MetaData o
-{ float uint8x
-`100% of %d` ,u8x repeatCount, string_ leftPad
-, i32
-    Foo , int64 x `two words` , calculatedFrom
-stringy `a\` ,
-}
-")).
-Eval vm_compute in ("<<<M651>>>" ++ check (runes_of_ascii "MetaData u
-    { } MetaData o
-{ float uint8x
-`100% of %d` ,repeatCount u8x, string_ leftPad
-, i32
-    Foo , int64  `two words` , calculatedFrom
-stringy `a\` ,
-}
-")).
-Eval vm_compute in ("<<<M594>>>" ++ check (runes_of_ascii "MetaData u
-    { } MetaData o
-{ float uint8x
-zchar[ ,repeatCount u8x, string_ leftPad
-, i32
-    Foo , int64 x `two words` , calculatedFrom
-stringy `a\` ,
-}
-")).
-Eval vm_compute in ("<<<M1819>>>" ++ check (runes_of_ascii "
+match 
+k
+as n
+{
+	[  ""a"", ""bb"" ,
 
-  options  { 
-LittleEndian
-	=	true 
-;
-    }
+    007,""d""
 
-packet 
-B {
-u8
+, ""e""
+,
+66,
 
-a,
-string
-s  ,
-	}root
+""g""
+,
+    ""h""
 
-    packet
-    P
-	{
-u16
-L@lengthOf(	B)
+    ,9 
 ,
 
-    B,u8
-	t 
+    ""j""
+
+]
+
+    : B
 ,
-	}
+2 : C
+}
+, }
 
 ")).
-Eval vm_compute in ("<<<M1528>>>" ++ check (runes_of_ascii "packet A {
-    match k as n {
-        [
-            ""a"", ""bb"", 007, ""d"", ""e"",
-            66, ""g"", ""h""
-        ] : B,
-        2 : C,
-    },
-}")).
-Eval vm_compute in ("<<<M1281>>>" ++ check (runes_of_ascii "options {
-    LittleEndian = true;
-}
-packet B {
-    u8 a,
-    string s,
-}
-root packet P {
-    u16 L @lengthOf(B),
-    B,
-    u8 t,
-}
-")).
-Eval vm_compute in ("<<<M1940>>>" ++ check (runes_of_ascii "options {
+Eval vm_compute in ("<<<M690>>>" ++ check (runes_of_ascii "MetaData u
+    { } MetaData o
+{ float uint8x
+`100% of %d` ,repeatCount u8x, string_ leftPad
+, i32
+    Foo , int64 x `two words` , cal")).
+Eval vm_compute in ("<<<M1890>>>" ++ check (runes_of_ascii "options {
 }
 
 options {
-    MetaDataX = char;// c
+    MetaDataX = char;
 }
 
 MetaData Pad {
+    // c
     i8 metadata,
     string stringy,
     int8 As `{ , }`,
 }")).
-Eval vm_compute in ("<<<M278>>>" ++ check (runes_of_ascii "options { A =
-""\n""
-    ; // @lengthOf(
-len = ' ' ;body =
-4294967296
-    ;	int=3 charz ='0' }
-// packet A { u8 x, }
-")).
-Eval vm_compute in ("<<<M1214>>>" ++ check (runes_of_ascii "options { } options { MetaDataX
-// c
-= char ; } MetaData Pad { i8 metadata , string stringy , int8 As `{ , }` , }")).
-Eval vm_compute in ("<<<M1246>>>" ++ check (runes_of_ascii "options { } options { MetaDataX = char ; } MetaData Pad { i8 metadata , string stringy , int8 As `{ , }`
-// c
-, }")).
-Eval vm_compute in ("<<<M947>>>" ++ check (runes_of_ascii "packet A {
-    u16 len @lengthOf(body) `x
-`,
-    u32 crc @calculatedFrom(""CRC32"") `x
-`,
-    string body,
-}")).
-Eval vm_compute in ("<<<M964>>>" ++ check (runes_of_ascii "packet A {
-    B b `100% of %s %d %v`,
-    B `100% of %s %d %v`,
-    repeat B bs `100% of %s %d %v`,
-}")).
-Eval vm_compute in ("<<<M1809>>>" ++ check (runes_of_ascii "packet
-Inner
+Eval vm_compute in ("<<<M1938>>>" ++ check (runes_of_ascii "
+packet
 
-{
+    A	{ match
 
-    u8 a 
+k	as
+
+n {
+
+[ 1
+,22, 007
+, 4
+    ,
+5 
 ,
-}
-
-    root packet  P{ repeat  Inner
-
-    items
-,u8
-	x
+66
+    , 
+7  , 8 
 ,
-}
+9 ,	10
+]  : 
+B , 
+2
+:  C	} 
+,}
 ")).
-Eval vm_compute in ("<<<M120>>>" ++ check (runes_of_ascii "options { T = 42 packetx
-    = true //	t
-;x_y_z = char[] ;trueish // trailing space 
-=
-u16 }")).
-Eval vm_compute in ("<<<M854>>>" ++ check (runes_of_ascii "packet A {
+Eval vm_compute in ("<<<M1205>>>" ++ check (runes_of_ascii "options { // c
+} options { MetaDataX = char ; } MetaData Pad { i8 metadata , string stringy , int8 As `{ , }` , }")).
+Eval vm_compute in ("<<<M1237>>>" ++ check (runes_of_ascii "options { } options { MetaDataX = char ; } MetaData Pad { i8 metadata , string stringy // c
+, int8 As `{ , }` , }")).
+Eval vm_compute in ("<<<M1894>>>" ++ check (runes_of_ascii "packet
+
+    A { match k 
+as
+    n{
+    [
+    ""a"" , ""bb"" ,
+007
+	,""d""
+
+,	""e"" 
+]
+
+: B
+    , 2 :C
+
+    }
+	, }")).
+Eval vm_compute in ("<<<M1564>>>" ++ check (runes_of_ascii "
+packet A  { 
+match
+k 
+as n { [1 ,
+
+22 ,
+
+    007 ,  4,5  ,	66
+
+    ,
+    7
+]
+:
+B
+	,2 :C }	, }
+")).
+Eval vm_compute in ("<<<M127>>>" ++ check (runes_of_ascii "root packet MetaDataX{
+} options  {	rootA = 7
+    ; _x = ""it's"" ; matchKey = 3 }
+packet rootA
+{}
+")).
+Eval vm_compute in ("<<<M884>>>" ++ check (runes_of_ascii "packet A {
   match k as n {
-    [1, ""bb"", 007, ""d"", 5, ""f"", 7, ""h""] : B,
+    [1, 22, ""c c"", 4, 5, ""f"", 7, 8, ""i"", 10] : B,
     2 : C
   },
 }")).
+Eval vm_compute in ("<<<M1671>>>" ++ check (runes_of_ascii "
+
+  MetaData
+	    //
+
+// " ++ [128512]%N ++ runes_of_ascii " emoji
+
+falsey
+{ char[]
+    f32a , //	t
+    }
+	packet
+As
+{  } ")).
 Eval vm_compute in ("<<<M985>>>" ++ check (runes_of_ascii "packet A {
     u32 crc @calculatedFrom(""x\
 y""),
     @calculatedFrom(""x\
 y"") u8 y,
 }")).
-Eval vm_compute in ("<<<M12>>>" ++ check (runes_of_ascii "options
-    { x = ""a\\""; } MetaData u {u8
-falsey ,
-    crc zchar , }
-/// triple
-")).
-Eval vm_compute in ("<<<M1623>>>" ++ check (runes_of_ascii "
-packet
-	A { match
-    k
-	as  n 
-{ [ 
-1 ,	""bb"" ,  007
-] 
-:
-B	,2 : C }	,
+Eval vm_compute in ("<<<M1633>>>" ++ check (runes_of_ascii "packet
 
-} ")).
-Eval vm_compute in ("<<<M804>>>" ++ check (runes_of_ascii "packet A {
-  match k as n {
-    [""a"", 22, ""c c"", 4] : B,
-    2 : C
-  },
-}")).
-Eval vm_compute in ("<<<M792>>>" ++ check (runes_of_ascii "packet A {
-  match k as n {
-    [""a"", 22, ""c c""] : B
-    2 : C
-  },
+    A
+
+{ Inner{ 
+u8
+
+    x
+	`
+`,
+Deep { u8
+y
+	`
+`
+    ,
+	} ,
+}
+	,} ")).
+Eval vm_compute in ("<<<M1262>>>" ++ check (runes_of_ascii "
+packet Inner	{ 
+u8	a ,
+
+} root packet P{Inner
+
+ref_obj
+	,
+u8
+
+    x
+
+, }
+")).
+Eval vm_compute in ("<<<M1888>>>" ++ check (runes_of_ascii "// c
+packet options1 {	options1 x
+    , }
+	options
+{ 
+Logon=
+
+float32	}
+")).
+Eval vm_compute in ("<<<M1687>>>" ++ check (runes_of_ascii "packet A {
+    match k as n {
+        [1] : B,
+        2 : C,
+    },
 }")).
 Eval vm_compute in ("<<<M786>>>" ++ check (runes_of_ascii "packet A {
   match k as n {
@@ -1040,59 +1253,58 @@ Eval vm_compute in ("<<<M786>>>" ++ check (runes_of_ascii "packet A {
     2 : C
   },
 }")).
-Eval vm_compute in ("<<<M1121>>>" ++ check (runes_of_ascii "// top
-MetaData
-    // c0
-tag
-    // c1
-{ // c2
-}
-    // c3
+Eval vm_compute in ("<<<M952>>>" ++ check (runes_of_ascii "packet A {
+    B b `
+x`,
+    B `
+x`,
+    repeat B bs `
+x`,
+}")).
+Eval vm_compute in ("<<<M1695>>>" ++ check (runes_of_ascii "
+
+  options { Logon=
+	""" ++ [28040; 24687]%N ++ runes_of_ascii """	; BodyLength
+    = false
+;}
+
 ")).
-Eval vm_compute in ("<<<M205>>>" ++ check (runes_of_ascii "
-options { f32a =
-true
-    // " ++ [128512]%N ++ runes_of_ascii " emoji
-    ; } // " ++ [128512]%N ++ runes_of_ascii " emoji")).
-Eval vm_compute in ("<<<M1104>>>" ++ check (runes_of_ascii "packet A { B { // a
- u8 x, // b
- } // c
- , // d
- }")).
-Eval vm_compute in ("<<<M1646>>>" ++ check (runes_of_ascii "options {
-
-    // c
-A  =
-	""// no comment""
-} ")).
-Eval vm_compute in ("<<<M1749>>>" ++ check (runes_of_ascii "
-packet
-
-    A {u8	x
-    `x
-` ,
-    }")).
-Eval vm_compute in ("<<<M1183>>>" ++ check (runes_of_ascii "options // c
-{ A = ""// no comment"" }")).
-Eval vm_compute in ("<<<M737>>>" ++ check (runes_of_ascii ") ""\n"" char repeat repeat ; char[")).
-Eval vm_compute in ("<<<M1007>>>" ++ check (runes_of_ascii "packet A {
- u8 x `d" ++ [160]%N ++ runes_of_ascii "`, // c" ++ [160]%N ++ runes_of_ascii "
+Eval vm_compute in ("<<<M1807>>>" ++ check (runes_of_ascii "MetaData M {
+    u8 x `
+    `,
+    T t `
+    `,
 }")).
-Eval vm_compute in ("<<<M1788>>>" ++ check (runes_of_ascii "options {
-    asx = false;
-}")).
-Eval vm_compute in ("<<<M1802>>>" ++ check (runes_of_ascii "packet
-A
-    {} 	 // c" ++ [8233]%N)).
-Eval vm_compute in ("<<<M1125>>>" ++ check (runes_of_ascii "MetaData
+Eval vm_compute in ("<<<M1114>>>" ++ check (runes_of_ascii "packet A { char[ // a
+ 3 // b
+ ] // c
+ x, }")).
+Eval vm_compute in ("<<<M762>>>" ++ check (runes_of_ascii "= options match """ ++ [233]%N ++ runes_of_ascii "t" ++ [233]%N ++ runes_of_ascii """ uint32 ; ""CRC32""")).
+Eval vm_compute in ("<<<M1188>>>" ++ check (runes_of_ascii "options { A
 // c
-tag { }")).
-Eval vm_compute in ("<<<M1020>>>" ++ check (runes_of_ascii "packet A {
-}
-// c" ++ [8192]%N)).
-Eval vm_compute in ("<<<M993>>>" ++ check (runes_of_ascii "packet A {
-}// c ")).
-Eval vm_compute in ("<<<M1495>>>" ++ check (runes_of_ascii "packet rootA {
+= ""// no comment"" }")).
+Eval vm_compute in ("<<<M737>>>" ++ check (runes_of_ascii ") ""\n"" char repeat repeat ; char[")).
+Eval vm_compute in ("<<<M1598>>>" ++ check (runes_of_ascii "
+
+  options {
+asx
+	=false  ;}
+
+")).
+Eval vm_compute in ("<<<M744>>>" ++ check (runes_of_ascii "=_?xc%p\XM[z`Z.E8&!3PsEU?W+/")).
+Eval vm_compute in ("<<<M756>>>" ++ check (runes_of_ascii "*P%lQ*-j/'2~6mR?IfmeZN9s")).
+Eval vm_compute in ("<<<M1083>>>" ++ check (runes_of_ascii "packet A {
+}// a// b")).
+Eval vm_compute in ("<<<M1016>>>" ++ check (runes_of_ascii "// c" ++ [5760]%N ++ runes_of_ascii "
+packet A {
 }")).
-Eval vm_compute in ("<<<M1079>>>" ++ check (runes_of_ascii "// c x")).
-Eval vm_compute in ("<<<M725>>>" ++ check (runes_of_ascii "")).
+Eval vm_compute in ("<<<M285>>>" ++ check (runes_of_ascii "packet rootA
+{  }")).
+Eval vm_compute in ("<<<M565>>>" ++ check (runes_of_ascii "MetaData u
+    {")).
+Eval vm_compute in ("<<<M1879>>>" ++ check (runes_of_ascii "// c" ++ [6158]%N ++ runes_of_ascii "
+ 
+")).
+Eval vm_compute in ("<<<M115>>>" ++ check (runes_of_ascii "
+
+")).
